@@ -143,6 +143,74 @@ def integer_containers(ctx, r, n_rounds):
                     check(ctx, x, xvals, kname, k, case, True)
 
 
+def equal_numbers_of_several_kinds(ctx):
+    """x holding, in one list or tuple, numbers that compare equal but are not the same number for arithmetic: a huge int and
+    its float (2**53 + 1 is an int only), a numpy.int8 and the Python int (100 * 2 overflows in one, not in the other).
+    Every position gets the operation applied to *its* value."""
+    import numpy as np
+    from barril.units import Array, FixedArray
+
+    big = 2**53
+    for u in ("m", "degC"):
+        for label, values in (("list: float then int", [float(big), big, 3, 3.0]), ("list: int then float", [big, float(big), 3.0, 3]), ("tuple: float then int", (float(big), big)), ("tuple: int then float", (1, 1.0, big, float(big))),
+                              ("list: numpy.int8 then int", [np.int8(100), 100, 7]), ("list: int then numpy.int8", [100, np.int8(100), 7])):  # fmt: skip
+            for cls in (Array, FixedArray):
+                x = cls(values, u) if cls is Array else cls(len(values), values, u)
+                case = {"x": repr(x)[:160], "class": cls.__name__, "container": label, "length": len(values), "quantity": "simple"}
+                for kname, k in (("int", 1), ("int 3", 3), ("int 2**53+1", big + 1), ("int minus one", -1), ("float", 2.5), ("int 2", 2)):
+                    if "int8" in label and not (isinstance(k, int) and abs(k) <= 3):
+                        continue
+                    ctx.nt((cls.__name__, label, u, kname))
+                    with np.errstate(all="ignore"):
+                        import warnings
+
+                        with warnings.catch_warnings():
+                            warnings.simplefilter("ignore")
+                            check(ctx, x, list(values), kname, k, case, True)
+
+
+def limited_categories(ctx, db):
+    """x in a category that has limits (fractions in 0..1, amounts that cannot be negative, ...): an operation with a plain
+    number is arithmetic on the stored value - the result carries x's quantity and the computed value wherever that value
+    lies with respect to the limits (whether it is *valid* is what CheckValidity answers, when asked)."""
+    import numpy as np
+    from barril.units import Array, Scalar
+
+    n = 0
+    # (the table's own categories have no limits: an application's categories do)
+    for name, qt, kw in (("c09 pipe length", "length", dict(min_value=0.0, max_value=100.0, default_value=10.0)), ("c09 share", "dimensionless", dict(min_value=0.0, max_value=1.0, is_max_exclusive=True, default_value=0.5)),
+                         ("c09 absolute temperature", "temperature", dict(min_value=0.0, is_min_exclusive=True, default_value=300.0)), ("c09 depth below", "length", dict(max_value=0.0, default_value=-1.0)),
+                         ("c09 rate", "volume flow rate", dict(min_value=-5.0, max_value=5.0, default_value=1.0))):  # fmt: skip
+        if name not in db.IterCategories():
+            db.AddCategory(name, qt, **kw)
+    for c in sorted(db.IterCategories()):
+        info = db.GetCategoryInfo(c)
+        lo, hi = info.min_value, info.max_value
+        if lo is None and hi is None:
+            continue
+        inside = lo if hi is None else hi if lo is None else (lo + hi) / 2.0
+        if lo is not None and hi is None:
+            inside = lo + 1.0
+        if hi is not None and lo is None:
+            inside = hi - 1.0
+        u = info.default_unit
+        try:
+            x = Scalar(c, float(inside), u)
+            xa = Array(c, [float(inside), float(inside)], u)
+            xn = Array(c, np.array([float(inside)]), u)
+        except Exception:
+            ctx.count("limited categories whose mid-range amount was refused")
+            continue
+        n += 1
+        case = {"category": c, "limits": [lo, hi], "x": repr(x), "quantity": "simple, limited category"}
+        for kname, k in (("float far above", 1.0e7), ("float far below", -1.0e7), ("int", -3), ("np.float64", np.float64(1.0e9)), ("zero", 0.0)):
+            ctx.nt(("limited", c, kname))
+            check(ctx, x, [x.GetValue()], kname, k, dict(case, **{"class": "scalar"}), False)
+            check(ctx, xa, list(xa.GetValues()), kname, k, dict(case, **{"class": "array[list]"}), True)
+            check(ctx, xn, list(xn.GetValues()), kname, k, dict(case, **{"class": "array[nd]"}), True)
+    ctx.count("categories with limits, operated past them", n)
+
+
 def rows_of_values(ctx):
     """x holding a 2-d numpy container (rows of values): k as a number, as an array of the same shape, and as one value
     per column - the result keeps x's quantity (reciprocal for k / x) and holds what numpy computes for the stored values."""
@@ -404,6 +472,9 @@ def run(ctx):
         if ctx.shard == 0:
             rows_of_values(ctx)
             unusual_containers(ctx)
+            equal_numbers_of_several_kinds(ctx)
+        if ctx.shard == 1 % ctx.nshards:
+            limited_categories(ctx, db)
         zero_d_containers(ctx)
         exponent_families(ctx, ctx.rng("families"), 12 if ctx.tier == "quick" else 150)
     ctx.inconclusive_if(ctx.counters.get("operands that could not be built", 0) > n_rounds, "barril refused to build %d valid operands" % ctx.counters.get("operands that could not be built", 0))
